@@ -13,6 +13,15 @@ META = {
         "note": "trusted: Coq kernel + vm_compute; skipfilter/roaring/LRU by contract; uritemplate/regexp as oracle; Go drivers",
         "technique": "Coq proof (index invariant by induction over operation histories; codec round-trip) + differential correspondence evaluated in Coq",
     },
+    "C10": {
+        "text": "Coq theorem C10_window: for every size, every outcome of the cleanup trigger at each publication, any number of publications and reopenings, "
+                "the retained sequence numbers are exactly lo..n, at least min(n,size), exactly that when cleanup always runs, everything when size=0 or cleanup "
+                "never runs; corollary C10_replay_complete. Tied to bolt.go by publish sequences on the real transport (payloads spanning several B-tree pages, "
+                "restarts in between), each step compared with the model's two allowed outcomes.",
+        "design_ref": "DESIGN.md §5 C10",
+        "note": "trusted: Coq kernel + vm_compute; bbolt by contract; Go drivers. Defect found and fixed: cleanup skipped every second key.",
+        "technique": "Coq proof (induction over publications) + differential correspondence evaluated in Coq",
+    },
     "C11": {
         "text": "Coq theorems over mercure's own matching logic with the URI-template library as a parameter: the rule (C11_spec, invalid template matches only "
                 "itself), the code's shortcut follows the rule, the cache is transparent for every lookup history from every truthful cache state (any evictions), "
